@@ -20,10 +20,12 @@ require (
 	github.com/golang/groupcache v0.0.0-20210331224755-41bb18bfe9da // indirect
 	github.com/golang/snappy v0.0.3 // indirect
 	github.com/google/uuid v1.2.0 // indirect
+	github.com/gorilla/websocket v1.4.2 // indirect
 	github.com/grandcat/zeroconf v0.0.0-20190424104450-85eadb44205c // indirect
 	github.com/hashicorp/go-version v1.3.0 // indirect
 	github.com/holiman/uint256 v1.2.0 // indirect
 	github.com/johngb/langreg v0.0.0-20150123211413-5c6abc6d19d2 // indirect
+	github.com/kr/secureheader v0.2.0 // indirect
 	github.com/miekg/dns v1.1.41 // indirect
 	github.com/pkg/errors v0.9.1 // indirect
 	github.com/syndtr/goleveldb v1.0.1-0.20200815110645-5c35d600f0ca // indirect
